@@ -121,11 +121,12 @@ macroget(char *name)
 static void
 macrodone(struct macro *m)
 {
+	/*
+	The argument tokens stay allocated until the next invocation
+	of the macro: a token of the frame that just ended may still
+	be in use by a caller that was looking ahead for a '('.
+	*/
 	m->hide = false;
-	if (m->kind == MACROFUNC && m->nparam > 0) {
-		free(m->arg[0].token);
-		free(m->arg);
-	}
 	--macrodepth;
 }
 
@@ -219,6 +220,7 @@ define(void)
 	m->name = tokencheck(&tok, TIDENT, "after #define");
 	m->hide = false;
 	m->reading = 0;
+	m->arg = NULL;
 	t = arrayadd(&repl, sizeof(*t));
 	scan(t);
 	if (t->kind == TLPAREN && !t->space) {
@@ -549,6 +551,11 @@ expandfunc(struct macro *m)
 	for (i = 0, t = tok.val; i < m->nparam; ++i) {
 		arg[i].token = t;
 		t += arg[i].ntoken;
+	}
+	if (m->arg && m->nparam > 0) {
+		/* arguments of the previous invocation */
+		free(m->arg[0].token);
+		free(m->arg);
 	}
 	m->arg = arg;
 	--m->reading;
